@@ -350,6 +350,8 @@ def values(x):
 
 
 def variances(x):
+    if isinstance(x, DataArray):
+        return DataArray(variances(x.data), coords=dict(x.coords), masks=dict(x.masks))
     return x._new(x._v.copy(), unit=x.unit ** 2, var=None)
 
 
@@ -360,7 +362,15 @@ def stddevs(x):
 def concat(x, dim):
     x = list(x)
     if isinstance(x[0], DataArray):
-        raise C.Unsupported('concat DataArray')
+        data = concat([d.data for d in x], dim)
+        coords = {}
+        for k, c in x[0].coords.items():
+            if dim in c.dims:
+                coords[k] = concat([d.coords[k] for d in x], dim)
+            else:
+                coords[k] = c
+        masks = {k: concat([d.masks[k] for d in x], dim) for k in x[0].masks}
+        return DataArray(data, coords=coords, masks=masks, name=x[0].name)
     u = x[0].unit
     for v in x:
         if v.unit != u:
@@ -612,6 +622,8 @@ class DataArray:
             dim, idx = key
         else:
             dim, idx = self.data.dim, key
+        if isinstance(idx, slice) and (isinstance(idx.start, Variable) or isinstance(idx.stop, Variable)):
+            idx = self._label_slice(dim, idx)
         coords = {}
         for k, c in self.coords.items():
             if dim in c.dims:
@@ -627,6 +639,31 @@ class DataArray:
 
     def __len__(self):
         return len(self.data)
+
+    def _label_slice(self, dim, sl):
+        """Value-based slice [start, stop) on an ascending point coordinate -> positional slice (a view)."""
+        if sl.step is not None:
+            raise C.Unsupported('label slice with step')
+        coord = self.coords[dim]
+        if coord.ndim != 1:
+            raise DimensionError('label-based slicing needs a 1-d coordinate')
+        n = coord.shape[0]
+        xs = list(coord._a)
+
+        def first_ge(bound):
+            if bound is None:
+                return None
+            if bound.unit != coord.unit:
+                raise UnitError(f'label slice: {bound.unit} vs {coord.unit}')
+            b = bound.value
+            i = 0
+            while i < n and not bool(xs[i] >= b):
+                i += 1
+            return i
+
+        lo = first_ge(sl.start)
+        hi = first_ge(sl.stop)
+        return slice(0 if lo is None else lo, n if hi is None else hi)
 
     def __iter__(self):
         for i in range(len(self.data)):
@@ -663,6 +700,16 @@ class DataArray:
 
     def __sub__(self, o):
         return DataArray(self.data - (o.data if isinstance(o, DataArray) else o), coords=dict(self.coords), masks=dict(self.masks))
+
+    def __pow__(self, n):
+        return DataArray(self.data ** n, coords=dict(self.coords), masks=dict(self.masks))
+
+    def __itruediv__(self, o):
+        self.data /= (o.data if isinstance(o, DataArray) else o)
+        return self
+
+    def __truediv__(self, o):
+        return DataArray(self.data / (o.data if isinstance(o, DataArray) else o), coords=dict(self.coords), masks=dict(self.masks))
 
     def __isub__(self, o):
         self.data -= (o.data if isinstance(o, DataArray) else o)
